@@ -142,55 +142,78 @@ func pow(b, e int) int {
 func buildItems(thorough bool) []*item {
 	var items []*item
 	var whole []*item
+	cat := func(l ...[]op) []op {
+		var out []op
+		for _, x := range l {
+			out = append(out, x...)
+		}
+		return out
+	}
+	keys4 := []int{kA, kAPipe, kAB, kFF}
+	keys3 := []int{kA, kAPipe, kFF}
+	keys2 := []int{kA, kAPipe}
+	keys6 := []int{kA, kAPipe, kAColon, kAB, kB, kFF}
+	vals := []int{vE, v1}
+	m4, m3, m2, m1 := mutsOf(keys4, vals), mutsOf(keys3, vals), mutsOf(keys2, vals), mutsOf([]int{kA}, vals)
+	// asymmetric 2-key alphabet for the buffers over file-backed stores: a with
+	// two values (so that a stale layer is visible), a| with one
+	m2a := []mut{st(kA, vE), st(kA, v1), st(kAPipe, v1), dl(kA), dl(kAPipe)}
+
 	for ki, k := range kinds() {
 		ctl := controls(k)
 		base := ki * 37
+		buf := k.buffer
+		// Base ops of a graph search reach every state; the batches are then
+		// applied in every state, split into parts. For plain stores the state
+		// is the reference map and single mutations reach all of it. For the
+		// buffer a batch is the only way to put a key into the buffer layer
+		// without the automatic flush, so there the one-mutation batches
+		// belong to the base (every part then reaches every layer state that
+		// longer batches reach); for plain stores they are ordinary batches.
+		graph := func(name string, ms []mut, batches []op, uni []int, parts, states int) {
+			b := cat(singles(ms), ctl)
+			if buf {
+				b = cat(singles(ms), batchesOf(ms, 1), ctl)
+			} else {
+				batches = cat(batchesOf(ms, 1), batches)
+			}
+			sliced(k, name, b, batches, uni, parts, states, &whole)
+		}
 
 		// --- graph: canonical-state search, full battery in every state ---
-		keys4 := []int{kA, kAPipe, kAB, kFF}
-		keys3 := []int{kA, kAPipe, kFF}
-		keys2 := []int{kA, kAPipe}
-		vals := []int{vE, v1}
-		m4, m3, m2, m1 := mutsOf(keys4, vals), mutsOf(keys3, vals), mutsOf(keys2, vals), mutsOf([]int{kA}, vals)
-		cat := func(l ...[]op) []op {
-			var out []op
-			for _, x := range l {
-				out = append(out, x...)
-			}
-			return out
-		}
-		// base ops of a graph search: single mutations, the one-mutation
-		// batches and the controls. For the buffer a batch is the only way to
-		// put a key into the buffer layer without the automatic flush, so the
-		// one-mutation batches are needed for every part to reach every layer
-		// state that longer batches reach.
-		baseOf := func(ms []mut) []op { return cat(singles(ms), batchesOf(ms, 1), ctl) }
 		switch {
 		case k.lite:
 		case k.class == clM:
 			// 81 states; every batch of <=3 mutations over 4 keys x 2 values in every state
-			sliced(k, "graph4", baseOf(m4), cat(batchesOf(m4, 2), batchesOf(m4, 3)), keys4, 4, 81, &whole)
+			graph("graph4", m4, cat(batchesOf(m4, 2), batchesOf(m4, 3)), keys4, 4, 81)
+			if thorough {
+				// three values: 256 states, every batch of <=3
+				m4v3 := mutsOf(keys4, []int{vE, v1, v2})
+				graph("graph4v3", m4v3, cat(batchesOf(m4v3, 2), batchesOf(m4v3, 3)), keys4, 16, 256)
+			}
 		case k.class == clF:
 			if thorough {
-				sliced(k, "graph4", baseOf(m4), cat(batchesOf(m4, 2), batchesOf(m4, 3)), keys4, 32, 81, &whole)
+				graph("graph4", m4, cat(batchesOf(m4, 2), batchesOf(m4, 3)), keys4, 32, 81)
 			} else {
-				// every batch of <=2 over the 4 keys, every batch of 3 over one key
-				sliced(k, "graph4", baseOf(m4), cat(batchesOf(m4, 2), batchesOf(m1, 3)), keys4, 5, 81, &whole)
+				// 81 states with single mutations and one-mutation batches;
+				// 27 states with every batch of <=2 and every batch of 3 over one key
+				graph("graph4", m4, nil, keys4, 1, 81)
+				graph("graph3", m3, cat(batchesOf(m3, 2), batchesOf(m1, 3)), keys3, 3, 27)
 			}
 		case k.class == clBM:
 			// state = reference x both layers: up to 9 layer states per key
 			if thorough {
-				sliced(k, "graph3", baseOf(m3), cat(batchesOf(m3, 2), batchesOf(m3, 3)), keys3, 8, 729, &whole)
-				sliced(k, "graph4", baseOf(m4), cat(batchesOf(m4, 2), batchesOf(m2, 3)), keys4, 24, 6561, &whole)
+				graph("graph3", m3, cat(batchesOf(m3, 2), batchesOf(m3, 3)), keys3, 8, 729)
+				graph("graph4", m4, cat(batchesOf(m4, 2), batchesOf(m2, 3)), keys4, 8, 6561)
 			} else {
-				sliced(k, "graph3", baseOf(m3), cat(batchesOf(m3, 2), batchesOf(m1, 3)), keys3, 2, 729, &whole)
+				graph("graph3", m3, cat(batchesOf(m3, 2), batchesOf(m1, 3)), keys3, 2, 729)
 			}
 		case k.class == clBF:
 			if thorough {
-				sliced(k, "graph2", baseOf(m2), cat(batchesOf(m2, 2), batchesOf(m2, 3)), keys2, 8, 81, &whole)
-				sliced(k, "graph3", baseOf(m3), batchesOf(m3, 2), keys3, 16, 729, &whole)
+				graph("graph2", m2, cat(batchesOf(m2, 2), batchesOf(m2, 3)), keys2, 8, 120)
+				graph("graph3", m3, nil, keys3, 1, 1000)
 			} else {
-				sliced(k, "graph2", baseOf(m2), cat(batchesOf(m2, 2), batchesOf(m1, 3)), keys2, 2, 81, &whole)
+				graph("graph2", m2a, batchesOf(m2a, 2), keys2, 1, 50)
 			}
 		}
 
@@ -199,19 +222,33 @@ func buildItems(thorough bool) []*item {
 		treeOps := singles([]mut{st(kA, v1), st(kA, vE), st(kAPipe, v1), dl(kA), dl(kAPipe)})
 		treeOps = append(treeOps, bt(st(kAPipe, v2), dl(kA)))
 		if thorough {
-			treeOps = append(treeOps, bt(st(kA, v1), dl(kA)), bt(dl(kA), st(kA, v2)), bt(st(kA, v2), st(kA, v1), dl(kAPipe)))
+			treeOps = append(treeOps, bt(dl(kA), st(kA, v2)))
+			if k.class != clF {
+				treeOps = append(treeOps, bt(st(kA, v1), dl(kA)), bt(st(kA, v2), st(kA, v1), dl(kAPipe)))
+			}
 		}
 		treeOps = append(treeOps, ctl...)
-		depth := 4
-		switch {
-		case (k.class == clM || k.class == clBM) && thorough:
-			depth = 6
-		case k.class == clM || k.class == clBM || thorough:
+		var depth int
+		switch k.class {
+		case clM, clBM:
 			depth = 5
+			if thorough {
+				depth = 6
+			}
+		case clF:
+			depth = 4
+			if thorough {
+				depth = 5
+			}
+		case clBF:
+			depth = 3
+			if thorough {
+				depth = 4
+			}
 		}
 		if k.lite {
-			// with Flush/reopen: only as deep as the known hang allows at
-			// tolerable cost; without: no hang expected
+			// every failing history of the sqlite-backed buffer is confirmed 5
+			// times: keep the tree with Flush/reopen shallow
 			depth = 2
 			if thorough {
 				depth = 3
@@ -239,10 +276,12 @@ func buildItems(thorough bool) []*item {
 		)
 		sizeOps = append(sizeOps, ctl...)
 		nst := 9
-		if k.buffer {
+		if buf {
 			nst = 81
 		}
-		sliced(k, "sizes-graph", sizeOps, nil, sizeKeys, 1, nst, &whole)
+		if k.class != clBF || thorough {
+			sliced(k, "sizes-graph", sizeOps, nil, sizeKeys, 1, nst, &whole)
+		}
 		sd := 2
 		if thorough && (k.class == clM || k.class == clBM) {
 			sd = 3
@@ -250,24 +289,23 @@ func buildItems(thorough bool) []*item {
 		items = append(items, &item{sp: mkSpace(k, "sizes-tree", sizeOps, sizeKeys, sd, false, base+5)})
 
 		// --- wide: the whole small-key alphabet, byte order of '|' ':' prefixes and 0xff ---
-		keys6 := []int{kA, kAPipe, kAColon, kAB, kB, kFF}
 		wvals := []int{v1}
 		wst := 64
 		if thorough && (k.class == clM || k.class == clF) {
 			wvals = []int{vE, v1}
 			wst = 729
 		}
-		wideOps := singles(mutsOf(keys6, wvals))
-		wideOps = append(wideOps,
-			bt(st(kFF, v1), st(kA, v1), st(kAPipe, v1)), bt(st(kAB, v1), st(kAColon, v1), st(kB, v1)), bt(dl(kAPipe), dl(kAColon), dl(kFF)))
-		wideOps = append(wideOps, ctl...)
+		wb := []op{bt(st(kFF, v1), st(kA, v1), st(kAPipe, v1)), bt(st(kAB, v1), st(kAColon, v1), st(kB, v1)), bt(dl(kAPipe), dl(kAColon), dl(kFF))}
+		wideOps := cat(singles(mutsOf(keys6, wvals)), wb, ctl)
 		switch k.class {
 		case clM, clF:
 			sliced(k, "wide-graph", wideOps, nil, keys6, 1, wst, &whole)
 		case clBM, clBF:
 			wd := 3
+			wt := cat(singles(mutsOf(keys6, wvals)[:6]), singles([]mut{dl(kAPipe)}), wb[:1], ctl)
 			if thorough {
 				wd = 4
+				wt = cat(singles(mutsOf(keys6, wvals)[:6]), singles([]mut{dl(kAPipe), dl(kFF)}), wb, ctl)
 			}
 			if k.class == clBM {
 				wd++
@@ -275,10 +313,6 @@ func buildItems(thorough bool) []*item {
 					sliced(k, "wide-graph", wideOps, nil, keys6, 1, 4096, &whole)
 				}
 			}
-			wt := singles(mutsOf(keys6, wvals)[:6])
-			wt = append(wt, singles([]mut{dl(kAPipe), dl(kFF)})...)
-			wt = append(wt, wideOps[12:15]...)
-			wt = append(wt, ctl...)
 			items = append(items, &item{sp: mkSpace(k, "wide-tree", wt, keys6, wd, false, base+9)})
 		}
 	}
